@@ -12,6 +12,10 @@ import (
 // Emit writes one trace event.
 type Emit func(ev map[string]interface{})
 
+// WireV2 makes both harness peers (scripted upstream, raw clients) speak bolt v2 instead of v1. Set once, before any
+// peer is started.
+var WireV2 bool
+
 // ---------------------------------------------------------------- scripted bolt upstream
 
 // Arrival is one request the upstream read.
@@ -88,7 +92,7 @@ func (u *Up) serve(uc *UpConn) {
 			continue
 		}
 		if f.Cmd == 0 { // heartbeat
-			uc.write((&Frame{Type: 0, Cmd: 0, ID: f.ID, Status: 0}).Encode())
+			uc.write((&Frame{V2: WireV2, Type: 0, Cmd: 0, ID: f.ID, Status: 0}).Encode())
 			continue
 		}
 		a := &Arrival{Tok: string(f.Content), UID: f.ID, Beh: f.Get("beh"), Conn: uc}
@@ -101,7 +105,7 @@ func (u *Up) serve(uc *UpConn) {
 			u.MaxUID = a.UID
 		}
 		u.Last = uc
-		u.emit(map[string]interface{}{"ev": "urecv", "tok": a.Tok, "uid": a.UID, "htok": f.Get("token")})
+		u.emit(map[string]interface{}{"ev": "urecv", "tok": a.Tok, "uid": a.UID, "htok": f.Get("token"), "v2": f.V2})
 		u.mu.Unlock()
 		if f.Type == 2 {
 			continue
@@ -172,7 +176,7 @@ func (u *Up) ReplyBody(uc *UpConn, uid uint32, tok, kind string, bare bool) bool
 		return false
 	}
 	u.emit(map[string]interface{}{"ev": "usend", "tok": tok, "uid": uid, "kind": kind, "bare": bare})
-	f := &Frame{Type: 0, Cmd: 2, ID: uid, Status: 0, Class: "com.alipay.sofa.rpc.core.response.SofaResponse",
+	f := &Frame{V2: WireV2, Type: 0, Cmd: 2, ID: uid, Status: 0, Class: "com.alipay.sofa.rpc.core.response.SofaResponse",
 		Header: [][2]string{{"token", tok}, {"pad", strings.Repeat("h", len(tok)%7)}}, Content: []byte(tok)}
 	if bare {
 		f.Content = nil
@@ -198,7 +202,7 @@ func (u *Up) ReplyError(uc *UpConn, uid uint32, etok, forTok string) bool {
 		return false
 	}
 	u.emit(map[string]interface{}{"ev": "usend", "tok": etok, "uid": uid, "kind": "err", "for": forTok})
-	f := &Frame{Type: 0, Cmd: 2, ID: uid, Status: 2, Class: "com.alipay.sofa.rpc.core.response.SofaResponse",
+	f := &Frame{V2: WireV2, Type: 0, Cmd: 2, ID: uid, Status: 2, Class: "com.alipay.sofa.rpc.core.response.SofaResponse",
 		Header: [][2]string{{"token", etok}}, Content: []byte(etok)}
 	uc.c.SetWriteDeadline(time.Now().Add(10 * time.Second))
 	_, err := uc.c.Write(f.Encode())
@@ -341,7 +345,7 @@ func (cl *Client) read() {
 		}
 		r := Reply{OK: f.Status == 0, Status: f.Status, HTok: f.Get("token"), BTok: string(f.Content)}
 		cl.mu.Lock()
-		cl.emit(map[string]interface{}{"ev": "crecv", "conn": cl.Name, "id": f.ID, "ok": r.OK, "status": r.Status, "htok": r.HTok, "btok": r.BTok})
+		cl.emit(map[string]interface{}{"ev": "crecv", "conn": cl.Name, "id": f.ID, "ok": r.OK, "status": r.Status, "htok": r.HTok, "btok": r.BTok, "v2": f.V2})
 		cl.Frames++
 		if ch := cl.out[f.ID]; ch != nil {
 			delete(cl.out, f.ID)
@@ -371,7 +375,7 @@ func (cl *Client) Send(id uint32, tok, beh string, timeoutMs int32, short, probe
 	cl.out[id] = ch
 	cl.emit(map[string]interface{}{"ev": "csend", "conn": cl.Name, "dsid": id, "tok": tok, "short": short, "probe": probe})
 	cl.mu.Unlock()
-	f := &Frame{Type: 1, Cmd: 1, ID: id, Timeout: timeoutMs, Class: "com.alipay.sofa.rpc.core.request.SofaRequest",
+	f := &Frame{V2: WireV2, Type: 1, Cmd: 1, ID: id, Timeout: timeoutMs, Class: "com.alipay.sofa.rpc.core.request.SofaRequest",
 		Header: [][2]string{{"service", cl.service()}, {"beh", beh}, {"token", tok}}, Content: []byte(tok)}
 	cl.wmu.Lock()
 	cl.c.SetWriteDeadline(time.Now().Add(10 * time.Second))
